@@ -387,6 +387,19 @@ func (rd *reader) parserRules(ruleLen, ruleMask, ruleFin, ruleDec string) {
 				got = -1 << 8 // a store of something else into the key
 			}
 			elemCopy = got == 15
+			// c.readMaskKey = [4]byte(p): the whole array stored at once from the 4 bytes read
+			for i := range p.Events {
+				ev := &p.Events[i]
+				if ev.Kind != core.EvStore || !isFieldAddr(ev.Addr, rd.readMaskKey) {
+					continue
+				}
+				v := ev.Val
+				if v.Kind == core.KLoad && strip(v.Args[0]) == kp {
+					if at, isArr := v.Type.Underlying().(*types.Array); isArr && at.Len() == 4 {
+						elemCopy = true
+					}
+				}
+			}
 		}
 		switch {
 		case len(masked) != 1:
@@ -452,6 +465,9 @@ func (rd *reader) parserRules(ruleLen, ruleMask, ruleFin, ruleDec string) {
 				return what + " is not a function of header byte 0"
 			}
 			for b0 := 0; b0 < 256; b0++ {
+				if !ops[b0&15] || !rd.b0Compatible(p, P, b0) {
+					continue // the path is not taken for this header byte
+				}
 				s := &hdrState{b0: b0, hasDecomp: true}
 				v, ok := p.X.Eval(t, rd.hdrLeaf(P, s))
 				if !ok || constant.BoolVal(v) != (b0&mask != 0) {
